@@ -772,6 +772,24 @@ def t9_check(F, g, r, label, need_tis):
         r.finding(g["path"], label + ":no-rejoin", "-", "the out-of-line root does not end in JumpTo(join): execution would not return to the instruction after the jump")
     if need_tis and "Tis" not in ends:
         r.finding(g["path"], label + ":no-tis", "-", "the out-of-line right operand of && / || does not end in Tis: the result would not be a boolean")
+    # ... on every path: the construction of the right root (BuildNode::new_with_*end*) is always preceded by building the
+    # Tis / JumpTo entries - an entry added only under a condition (e.g. "unless the operand is already boolean") is not
+    mir = g["mir"]
+    def builds(name):
+        return lambda bi, b: any(s_["k"] == "Assign" and s_["rv"].get("k") == "Aggregate" and s_["rv"].get("variant") == name and (s_["rv"].get("adt") or "").endswith("::Instruction") for s_ in b["stmts"])
+    def is_ctor(bi, b):
+        t = b["term"]
+        return t["k"] == "Call" and "BuildNode" in (t.get("def") or "") and "end" in last(t.get("def") or "")
+    n_ctor = sum(1 for bi, b in enumerate(mir["blocks"]) if not b["cleanup"] and is_ctor(bi, b))
+    for name in (["Tis", "JumpTo"] if need_tis else ["JumpTo"]):
+        if n_ctor and name in ends:
+            w = mirq.path_avoiding_to(mir, [0], builds(name), is_ctor)
+            r.examine((g["path"], "always-" + name), True)
+            if w is not None:
+                r.finding(g["path"], label + ":conditional-" + name.lower(), loc(mir["blocks"][w[-1]]["term"]),
+                          "a path through %s (blocks %s) constructs the out-of-line right root without a %s entry in its end instructions: %s" % (
+                              last(g["path"]), w, name, "the operand's own value is used as the result of && / || - not a boolean whenever that operand yields unit or any non-boolean" if name == "Tis" else "execution would not re-join after the operand"),
+                          path=["CFG blocks: " + " -> ".join("bb%d" % x for x in w)])
 
 
 def rule_T9(ctx):
